@@ -1591,12 +1591,11 @@ class ArmiObject(metaclass=CompositeModelType):
             nuc: val * factor for nuc, val in self.getNumberDensities().items()
         }
         self.setNumberDensities(densitiesScaled)
-        # Update detailedNDens
-        if self.p.detailedNDens is not None:
-            self.p.detailedNDens *= factor
-        # Update pinNDens
-        if self.p.pinNDens is not None:
-            self.p.pinNDens *= factor
+        # Update detailedNDens and pinNDens where this kind of object defines them (blocks and
+        # assemblies have no pinNDens, cores have neither)
+        for paramName in ("detailedNDens", "pinNDens"):
+            if self.p.get(paramName) is not None:
+                self.p[paramName] *= factor
 
     def clearNumberDensities(self):
         """
